@@ -7,6 +7,15 @@ Definition with_tz (w : world) (tz : Z) : world :=
   {| w_fs := w_fs w; w_default_config := w_default_config w; w_tz := tz; w_clock := w_clock w;
      w_or := w_or w; w_sink := w_sink w; w_read_fault := w_read_fault w |}.
 
+(** the same world with the process in another zone AND the wall clock as it is read there.
+    [time.Now()] carries the local zone; since the keyword [today] no longer converts with
+    [.Local()] (fix 4fa5d57), the process zone reaches the program only through the offset
+    (and civil date) of the clock value, so a change of zone is a change of [w_tz] and of the
+    zone fields of [w_clock], the instant staying the same *)
+Definition with_zone (w : world) (tz : Z) (clock : time) : world :=
+  {| w_fs := w_fs w; w_default_config := w_default_config w; w_tz := tz; w_clock := clock;
+     w_or := w_or w; w_sink := w_sink w; w_read_fault := w_read_fault w |}.
+
 (** a zone offset strictly between -24h and +24h (every real zone is within -12h .. +14h) *)
 Definition tz_ok (tz : Z) : Prop := -86400 < tz < 86400.
 
